@@ -130,6 +130,9 @@ func (s *Sim) taintOf(msg string) string {
 		apps[a] = true
 	}
 	for _, m := range reNode.FindAllStringSubmatch(msg, -1) {
+		if t["node:"+m[1]] != "" {
+			apps["node:"+m[1]] = true
+		}
 		for _, al := range s.shim.Allocs {
 			if al.Node == m[1] {
 				apps[al.App] = true
@@ -499,6 +502,25 @@ func (s *Sim) quiescent(op Op) {
 	s.pre = s.post
 	s.post = TakeSnap(s.sc.Scheduler, s.part)
 	if op.Kind == "batch" {
+		// a foreign allocation reported for a node while the removal of that node travels on the other channel: the
+		// known cross-channel removal race, for allocations that belong to no application (marker on the node)
+		for _, rm := range op.Sub {
+			if rm.Kind != "node_remove" {
+				continue
+			}
+			for _, sub := range op.Sub {
+				if sub.Kind != "ask" {
+					continue
+				}
+				for _, a := range sub.Asks {
+					if a.Foreign != "" && a.Node == rm.Node {
+						s.shim.mu.Lock()
+						s.shim.taint("node:"+rm.Node, "removal-race")
+						s.shim.mu.Unlock()
+					}
+				}
+			}
+		}
 		// a release that travelled next to the scheduling cycle which linked the same ask to a placeholder as its
 		// replacement: the known "ask released during swap" history, decided inside this step
 		s.shim.mu.Lock()
